@@ -22,7 +22,7 @@ META = {
          "State = (position, real read buffer, frames delivered); BFS with deduplication covers every chunking of every stream of <=3 frames with 1..5(6) byte payloads, plus boundary-window chunkings of long streams (255..70000 B), and all send size classes incl. the 2^24 limit.",
          "Payload bytes are patterns; layer does not inspect them.", "3/C05"),
  "C06": ("exploration", "enumeration of all stanza/entity kinds x 32 stack configurations on the real assembled stack",
-         "Each kind of a hand-written routing table is pushed through the really assembled default protocol layers for all 16 module selections with and without encryption layers; exactly-one/none oracles per kind.",
+         "Each kind of a hand-written routing table is pushed through the really assembled default protocol layers for all 16 module selections with and without encryption layers; exactly-one/none oracles per kind; ordered pairs of kinds on one stack are compared with the second stanza's handling on a fresh stack.",
          "Routing table (reference model) is hand-written from the statement and the layers' documented kinds.", "3/C06"),
  "C07": ("exploration", "enumeration of notification/call/ping/unpresentable-message kinds x 32 configurations",
          "Every stanza kind of the quantifier is injected into the assembled stack for each configuration and the stanzas sent down are compared with the required single acknowledgement.",
